@@ -146,6 +146,16 @@ def step (line : String) : String :=
   | none => "? bad-line"
   | some (id, inp, obs) =>
     if inp.head? == some "U" then stepU id inp obs else
+    -- K12f probe: `<id> B <which> => <panicked> <served>`: a direct call of Router.AddRouteToTree (0) / AddVersionRoute (1)
+    -- after the first request. Oracle: rejected, or at least without effect. Classifier: the line kind itself.
+    if inp.head? == some "B" then
+      (match runP (do let p ← bool; let s ← bool; pure (p, s)) obs with
+       | some (panicked, served) =>
+         let c := [Op.register 1, .enterFreeze, .freezeCallWarmup, .warmupStep, .warmupStep, .warmupStep, .freezeFinish].foldl Core.step Core.init
+         let m := bridgeProbeAsIs c 2
+         verdict id ((panicked, served) == m) (panicked || !served) "K12f-registrar-bridge"
+           ((if m.1 then "1" else "0") ++ " " ++ (if m.2 then "1" else "0"))
+       | none => s!"{id} bad-case") else
     -- free-running stress run: the harness reports whether the interleaving-independent facts held
     if inp.head? == some "S" then
       (let ok := obs.head? == some "OK"
